@@ -264,7 +264,7 @@ func drawEmbedCase(c *Ctx, g *core.Lane, kind int, rec *gen.Record, opts gen.Lay
 		c.Inc("probe:over-documented-limits (skipped)")
 		return ec
 	}
-	ec.emb = gen.EmbedX(g, c.L("emb:x"), kind, encodeParts(ec.lys, false), surround)
+	ec.emb = gen.EmbedX(g, c.L("emb:x"), kind, encodeParts(ec.lys, false), surround, c.L("emb:y"))
 	return ec
 }
 
@@ -336,7 +336,7 @@ func init() {
 				if kind == gen.CJPEG && len(ref.emb.Bytes) > 65000 {
 					return
 				}
-				cand.emb = gen.EmbedX(g, c.L("emb:x"), kind, encodeParts(ref.lys, false), true)
+				cand.emb = gen.EmbedX(g, c.L("emb:x"), kind, encodeParts(ref.lys, false), true, c.L("emb:y"))
 			}
 			eRef := harness.EntryByName("Decode")
 			names := containerEntries[kind]
@@ -387,7 +387,7 @@ func init() {
 			// same payload, other surroundings, same container
 			if cfg.Chance(1, 2) {
 				other := &embedCase{rec: rec, kind: kind, lys: cand.lys, okLimit: true}
-				other.emb = gen.EmbedX(g, c.L("emb:x"), kind, encodeParts(cand.lys, false), true)
+				other.emb = gen.EmbedX(g, c.L("emb:x"), kind, encodeParts(cand.lys, false), true, c.L("emb:y"))
 				ro := decodeFile(c, e, other.file(big))
 				c.Inc("probe:other-surroundings-compared")
 				differs := ro.Panic != nil || ro.Canon() != rc.Canon()
